@@ -272,8 +272,20 @@ func (ex *Exec) modSpecs(fr *Frame, ct *Contract) []modSpec {
 				case "elems":
 					out = append(out, modSpec{kind: "elems", slice: env.eval(call.Args[0]).(SlV)})
 					continue
+				case "elemscap":
+					sl := env.eval(call.Args[0]).(SlV)
+					sl.Len = sl.Cap
+					out = append(out, modSpec{kind: "elems", slice: sl})
+					continue
 				case "entries":
 					out = append(out, modSpec{kind: "entries", mapv: env.eval(call.Args[0]).(Sc)})
+					continue
+				case "ghost", "ghostarr":
+					gid, ok := call.Args[0].(*ast.Ident)
+					if !ok {
+						specErr("%s(name)", id.Name)
+					}
+					out = append(out, modSpec{kind: "ghost", fam: id.Name + "." + gid.Name})
 					continue
 				case "mapfamily":
 					t := env.resolveType(call.Args[0])
@@ -351,6 +363,9 @@ func (ex *Exec) frameRelation(mods []modSpec, name string, cur *Term, r, k *Term
 			if m.kind == "loc" && m.loc.Kind == LGlobal && m.loc.Glob == key {
 				return False, True, false
 			}
+			if m.kind == "ghost" && m.fam == key {
+				return False, True, false
+			}
 		}
 		return True, Eq(cur, old), false
 	}
@@ -385,24 +400,127 @@ func (ex *Exec) frameObligations(fr *Frame, out *State, ct *Contract, kind strin
 		return
 	}
 	entry := ex.entry
-	if out.Epoch != entry.Epoch {
-		ex.addObl(kind, "everything", fr.fn.Pos(), out, False, nil)
-		return
+	if ex.frameChecked == nil {
+		ex.frameChecked = map[*WriteRec]bool{}
 	}
-	for _, name := range out.heapNames() {
-		cur := out.Heap[name]
-		if cur == entry.heap(name, heapSorts[name]) {
+	// Every logged write must hit a location covered by a modifies clause, or an object
+	// allocated after entry. One small obligation per distinct write (no array reasoning).
+	seenKey := map[string]bool{}
+	for _, w := range out.Writes {
+		if ex.frameChecked[w] {
 			continue
 		}
-		r := Fresh("fr_ref", RefSort)
-		k := Fresh("fr_idx", IntSort)
-		hyp, eq, usesK := ex.frameRelation(mods, name, cur, r, k)
-		sk := []*Term{r}
-		if usesK {
-			sk = append(sk, k)
+		ex.frameChecked[w] = true
+		st := &State{G: w.Guard}
+		var goal *Term
+		var sk []*Term
+		detail := w.Kind + ":" + w.Key
+		if w.Prefix != "" {
+			detail += "." + w.Prefix
 		}
-		ex.addObl(kind, name, fr.fn.Pos(), out, Implies(hyp, eq), sk)
+		switch w.Kind {
+		case "everything":
+			goal = False
+		case "global":
+			goal = False
+			for _, m := range mods {
+				if (m.kind == "loc" && m.loc.Kind == LGlobal && m.loc.Glob == w.Key) || (m.kind == "ghost" && m.fam == w.Key) {
+					goal = True
+				}
+			}
+		case "mapfamily":
+			goal = False
+			for _, m := range mods {
+				if m.kind == "mapfamily" && m.fam == w.Key {
+					goal = True
+				}
+			}
+		case "map":
+			cov := []*Term{Not(ULt(w.Ref, entry.Alloc))}
+			for _, m := range mods {
+				if m.kind == "mapfamily" && m.fam == w.Key {
+					cov = append(cov, True)
+				}
+				if m.kind == "entries" && mapFam(m.mapv.Ty.Underlying().(*types.Map)) == w.Key {
+					cov = append(cov, Eq(w.Ref, m.mapv.T))
+				}
+			}
+			goal = Or(cov...)
+		case "field":
+			if isFreshRef(w.Ref) {
+				continue
+			}
+			cov := []*Term{Not(ULt(w.Ref, entry.Alloc))}
+			for _, m := range mods {
+				if m.kind == "loc" && m.loc.Kind == LHeap && typeKey(m.loc.Root) == w.Key {
+					mp, _, _ := pathString(m.loc.Root, m.loc.Path)
+					if mp == "" || mp == w.Prefix || strings.HasPrefix(w.Prefix, mp+".") {
+						cov = append(cov, Eq(w.Ref, m.loc.Ref))
+					}
+				}
+			}
+			goal = Or(cov...)
+		case "elem", "range":
+			if isFreshRef(w.Ref) {
+				continue
+			}
+			idx := w.Idx
+			var inRange *Term = True
+			if w.Kind == "range" {
+				if w.N.IsConst() && w.N.Val.Sign() == 0 {
+					continue
+				}
+				j := Fresh("fr_idx", IntSort)
+				sk = append(sk, j)
+				inRange = And(SLe(w.Idx, j), SLt(j, Add(w.Idx, w.N)))
+				idx = j
+			}
+			cov := []*Term{Not(preExistingArray(w.Ref, entry.Alloc))}
+			for _, m := range mods {
+				switch m.kind {
+				case "elems":
+					if typeKey(m.slice.Ty.Underlying().(*types.Slice).Elem()) == w.Key {
+						cov = append(cov, And(Eq(w.Ref, m.slice.Arr), SLe(m.slice.Off, idx), SLt(idx, Add(m.slice.Off, m.slice.Len))))
+					}
+				case "loc":
+					if m.loc.Kind == LElem && typeKey(m.loc.Root) == w.Key {
+						mp, _, _ := pathString(m.loc.Root, m.loc.Path)
+						if mp == "" || mp == w.Prefix || strings.HasPrefix(w.Prefix, mp+".") {
+							cov = append(cov, And(Eq(w.Ref, m.loc.Arr), Eq(idx, m.loc.Idx)))
+						}
+					}
+					// a modifies clause naming an array-typed field covers all its elements
+					if er := embeddedArrayRef(m.loc); er != nil {
+						cov = append(cov, Eq(w.Ref, er))
+					}
+				}
+			}
+			goal = Implies(inRange, Or(cov...))
+		default:
+			continue
+		}
+		key := detail + "/" + fmt.Sprint(goal.id) + "/" + fmt.Sprint(w.Guard.id)
+		if goal == True || seenKey[key] {
+			continue
+		}
+		seenKey[key] = true
+		ex.addObl(kind, detail, fr.fn.Pos(), st, goal, sk)
+		if n := len(ex.obls); n > 0 && w.Desc != "" {
+			ex.obls[n-1].Src = w.Desc
+		}
 	}
+}
+
+// isFreshRef: the reference is syntactically the allocation counter of this execution plus a
+// constant, i.e. an object allocated since entry.
+func isFreshRef(r *Term) bool {
+	if r.Op == "var" && r.Name == "alloc@0" {
+		return true
+	}
+	if r.Op == "bvadd" && r.Args[1].IsConst() {
+		return isFreshRef(r.Args[0])
+	}
+	return false
 }
 
 // assumeLoopFrame constrains a heap family that was havocked at a loop head: outside the
